@@ -203,6 +203,30 @@ func (g *G) grpcMethod(s *m.Service, scope map[string]bool) {
 			g.feat("response-trailer-metadata")
 		}
 	}
+	// explicit Message lists (a syntactic variant: the DSL adds every other
+	// attribute that is not carried in metadata to the message anyway)
+	explicit := func(a *m.Attr, skip []m.Mapping, label string) []string {
+		if a == nil || rapid.IntRange(0, 2).Draw(t, label+"explicit") != 0 {
+			return nil
+		}
+		in := map[string]bool{}
+		for _, mp := range skip {
+			in[mp.Attr] = true
+		}
+		var out []string
+		for _, f := range g.d.ObjectFields(a) {
+			if !in[f.Name] && rapid.Bool().Draw(t, label+"msg:"+f.Name) {
+				out = append(out, f.Name)
+			}
+		}
+		return out
+	}
+	if meth.GRPC.Message = explicit(meth.Payload, meth.GRPC.Metadata, "req"); len(meth.GRPC.Message) > 0 {
+		g.feat("explicit-request-message")
+	}
+	if meth.GRPC.RespMessage = explicit(meth.Result, append(append([]m.Mapping{}, meth.GRPC.Headers...), meth.GRPC.Trailers...), "resp"); len(meth.GRPC.RespMessage) > 0 {
+		g.feat("explicit-response-message")
+	}
 	s.Methods = append(s.Methods, meth)
 }
 
